@@ -470,11 +470,10 @@ Definition work_result (a : auth) : wstate :=
    report bytes written (_dbus_auth_bytes_sent), each followed by _dbus_auth_do_work *)
 Inductive event := Feed (chunk : bytes) | Sent (n : N).
 Definition step (e : env) (a : auth) (ev : event) : option auth :=
-  if is_crashed (a_core a) then Some a
-  else match ev with
-       | Feed c => do_work e (mkAuth (a_core a) (a_incoming a ++ c) (a_outgoing a))
-       | Sent n => do_work e (mkAuth (a_core a) (a_incoming a) (skipn (N.to_nat n) (a_outgoing a)))
-       end.
+  match ev with
+  | Feed c => do_work e (mkAuth (a_core a) (a_incoming a ++ c) (a_outgoing a))
+  | Sent n => do_work e (mkAuth (a_core a) (a_incoming a) (skipn (N.to_nat n) (a_outgoing a)))
+  end.
 Fixpoint run (e : env) (a : auth) (evs : list event) : option auth :=
   match evs with
   | [] => Some a
